@@ -216,6 +216,11 @@ func introspectRemoteSchema(factory QueryerFactory, url string) (*ast.Schema, er
 			}
 		}
 	}
+	for _, directive := range schema.Directives {
+		for _, arg := range directive.Arguments {
+			setEnumDefault(schema, arg.Type, arg.DefaultValue)
+		}
+	}
 
 	// Reformat schema
 	schemaStr := formatSchema(schema)
